@@ -274,6 +274,10 @@ func (b *Box) Send(msgType uint8, topic []byte, msg []byte, to ...UniversalID) {
 		msgs.lock.RLock()
 		messages = msgs.messages
 		msgs.lock.RUnlock()
+		// The topic has started, hence it no longer counts as an in-flight topic of its senders
+		for _, sender := range msgs.senders() {
+			delete(b.totalInFlightTopicsBySender[sender], string(topic))
+		}
 	}
 
 	defer func() {
